@@ -280,7 +280,10 @@ def check_c18(tier, seed, t0):
         if not x["rejected"]:
             agg["violations"].append({"prop": "C18", "oracle": "unsound-program-compiles:" + x["name"].split("__")[0], "msg": "the unsound program '%s' compiles (its twin differs only in statement order)" % x["name"], "engine": "cx", "history": None, "extra": {"program": x["bad"], "twin": x["good"]}})
         elif not x["family_ok"]:
-            raise MachineryError("corpus bug: %s is rejected, but with an unrelated error %s %s" % (x["name"], x["codes"], x["text"]))
+            # still rejected, so the property holds for this program; on the unchanged tree this would indicate a corpus bug,
+            # but the check cannot tell trees apart, so it is recorded and not turned into a verdict
+            agg["collateral"]["cx:rejected-with-unexpected-family:" + x["name"]] = 1
+            nontriv += 1
         else:
             nontriv += 1
     agg["evaluations"] += res["programs"]
